@@ -171,6 +171,8 @@ func propC01(w *World, r *Report) {
 	if !viol["O4"] {
 		r.Pass("O4", "every frame call ends with a fresh current slot", "-", fmt.Sprintf("%d quiescent states", len(run.Reach)))
 	}
+	checkRingAdvancesOncePerFrame(w, r, runs, "O1", true, false)
+	checkSinksDistinct(w, r, runs, "O1") // nothing else writes into the motion recording's file
 }
 
 // checkMarkOnlyAfterStop: the oldest-mark (which discards buffered pre-trigger frames) is placed only in a
@@ -245,6 +247,19 @@ func checkPreTriggerLoop(w *World, r *Report, runs *motionRuns, rule string) {
 		gs := e.guardsOf(call.Block())
 		wantGuard := "lt(iv(0, 1), (len(" + hist + ") + -1))"
 		r.Check(hasGuard(gs, wantGuard), rule, construct+": loop runs while i < len(history)-1 (the current frame is excluded)", pos, "dominating guards: "+strings.Join(guardStrings(gs), " ; "))
+		// nothing else decides whether the history is written: every other condition that dominates the write inside
+		// its function must hold whenever there is anything to write (it may only depend on len(history), and must
+		// be true for every length >= 2) — an extra early return would drop (part of) the preview
+		var extra []string
+		for _, g := range gs {
+			if g.String() == wantGuard || g.If.Parent() != call.Parent() {
+				continue
+			}
+			if !holdsForAllLengths(g, hist) {
+				extra = append(extra, g.String())
+			}
+		}
+		r.Check(len(extra) == 0, rule, construct+": no other condition can skip the history (only the loop bound)", pos, "extra dominating conditions: "+strings.Join(extra, " ; "))
 		// contexts: between successful start and the write of the current frame
 		okc, bad, _, nn := allCtx([]*Event{ev}, func(cx *Ctx) bool {
 			return cx.Ghosts["opened:motion"] == 1 && cx.Ghosts["wcur:motion"] == 0 && cx.Ghosts["histAfterStart"] == 1
@@ -336,6 +351,7 @@ func propC02(w *World, r *Report) {
 		r.Check(n > 0, "P3", "successful start => history + trigger frame written in the same call", "-", fmt.Sprintf("%d exit contexts with a successful start", n))
 	}
 	checkSettingsImmutable(w, r, "P1", "RecorderConfig:PreviewSecs", "ThermalRecorder:PreviewSecs", "Config:Recorder") // preview-secs reaches the processor as configured
+	checkRingAdvancesOncePerFrame(w, r, runs, "P2", true, false)
 }
 
 // ---------------------------------------------------------------------------------------
@@ -1033,6 +1049,27 @@ func propC13(w *World, r *Report) {
 	} else {
 		r.Check(n > 0, "B2", "bad frame: motion recording closed at exit", "-", fmt.Sprintf("%d exit contexts on the parse-error edge", n))
 	}
+	// the processor itself must know the recording is over (also when the recorder's stop reports an error): the flag
+	// that mirrors the motion sink in fault-free operation is clear after every rejected frame
+	if inv := inferSinkInvariant(runs.nofault); inv[roleMotion].field >= 0 {
+		fname := run.C.fieldName(inv[roleMotion].field)
+		var badFlag *Ctx
+		for _, cx := range exitCtxs(run) {
+			if p, has := cx.Dec["parse"]; !has || p != 0 {
+				continue
+			}
+			if v := cx.Fields[fname]; v != "false" && v != "0" && badFlag == nil {
+				badFlag = cx
+			}
+		}
+		if badFlag != nil {
+			r.Fail("B2", "bad frame: the processor no longer considers itself recording ("+fname+" clear)", "-", "after a rejected frame the recording is closed but the processor still believes it is recording (the following frames go to a closed file and no new recording can start): "+describeCtx(badFlag), badFlag.Trace)
+		} else {
+			r.Check(n > 0, "B2", "bad frame: the processor no longer considers itself recording ("+fname+" clear)", "-", fmt.Sprintf("%d exit contexts over all failure placements", n))
+		}
+	} else {
+		r.Unknown("B2", "bad frame: the processor no longer considers itself recording", "-", "no flag mirrors the motion sink in fault-free operation")
+	}
 	if badRet != nil {
 		r.Fail("B2", "bad frame: the parser's error is returned unchanged", "-", "Process does not return the parser's error on the parse-error edge: "+describeCtx(badRet), badRet.Trace)
 	} else {
@@ -1053,6 +1090,7 @@ func propC13(w *World, r *Report) {
 	checkParsers(w, r, "B1")
 	checkHandleConnBadFrame(w, r)
 	checkSettingsImmutable(w, r, "B1", "ThermalMotion:EdgePixels", "Config:Motion") // the border the parsers tolerate zeros in is the configured edge-pixels
+	checkRingAdvancesOncePerFrame(w, r, runs, "B3", false, true)
 }
 
 // ---------------------------------------------------------------------------------------
@@ -1222,6 +1260,7 @@ func propC17(w *World, r *Report) {
 	checkAuxIndependence(w, r, runs, roles)
 	checkAuxWiring(w, r, runs)
 	checkCleanupOnlyAtStartup(w, r, "V4") // no recorder unlinks the in-progress file of the continuous / test recording
+	checkSinksDistinct(w, r, runs, "V4")  // the continuous and test recordings have recorders of their own
 }
 
 // V4: functions that drive the continuous/test sinks store only to fields that the motion path never reads or writes.
@@ -1401,4 +1440,122 @@ func dynamicTypes(v ssa.Value, depth int) []types.Type {
 		return []types.Type{v.Type()}
 	}
 	return nil
+}
+
+// holdsForAllLengths: the guard depends only on len(<hist>) and integer constants and is true for every length 2..64.
+func holdsForAllLengths(g Guard, hist string) bool {
+	var eval func(t *Term, n int64) (int64, bool)
+	eval = func(t *Term, n int64) (int64, bool) {
+		if c, ok := t.isConst(); ok {
+			return c, true
+		}
+		switch t.Op {
+		case "len":
+			if len(t.Args) == 1 && t.Args[0].String() == hist {
+				return n, true
+			}
+		case "add":
+			var s int64
+			for _, a := range t.Args {
+				v, ok := eval(a, n)
+				if !ok {
+					return 0, false
+				}
+				s += v
+			}
+			return s, true
+		case "mul":
+			p := int64(1)
+			for _, a := range t.Args {
+				v, ok := eval(a, n)
+				if !ok {
+					return 0, false
+				}
+				p *= v
+			}
+			return p, true
+		case "lt", "le", "eq", "ne":
+			if len(t.Args) != 2 {
+				return 0, false
+			}
+			a, ok1 := eval(t.Args[0], n)
+			b, ok2 := eval(t.Args[1], n)
+			if !ok1 || !ok2 {
+				return 0, false
+			}
+			var r bool
+			switch t.Op {
+			case "lt":
+				r = a < b
+			case "le":
+				r = a <= b
+			case "eq":
+				r = a == b
+			case "ne":
+				r = a != b
+			}
+			if r {
+				return 1, true
+			}
+			return 0, true
+		case "not":
+			v, ok := eval(t.Args[0], n)
+			return 1 - v, ok
+		}
+		return 0, false
+	}
+	for n := int64(2); n <= 64; n++ {
+		v, ok := eval(g.Cond, n)
+		if !ok {
+			return false
+		}
+		if (v == 1) != g.Pos {
+			return false
+		}
+	}
+	return true
+}
+
+// checkRingAdvancesOncePerFrame: every call that accepts a frame (Process with a successful parse, ProcessFrame) ends
+// with the pre-trigger ring advanced exactly once - whatever happened to the recording on that frame (refused start,
+// failed file creation, write/stop failure) - and a rejected frame never advances it. A frame whose slot is not advanced
+// is overwritten by the next one: it is missing from the pre-trigger history (a gap inside the next recording) and the
+// "previous frame" served to snapshot requests is stale.
+func checkRingAdvancesOncePerFrame(w *World, r *Report, runs *motionRuns, rule string, wantAccepted, wantRejected bool) {
+	n, nbad := 0, 0
+	var bad, badRej *Ctx
+	for _, ev := range runs.fault.sortedEvents() {
+		if ev.Kind != "exit" || (ev.Entry != "Process" && ev.Entry != "ProcessFrame") {
+			continue
+		}
+		for _, cx := range ev.Ctxs {
+			p, has := cx.Dec["parse"]
+			accepted := ev.Entry == "ProcessFrame" || (has && p == 1)
+			if accepted {
+				n++
+				if cx.Ghosts["moved"] != 1 && bad == nil {
+					bad = cx
+				}
+			} else if has && p == 0 {
+				nbad++
+				if cx.Ghosts["moved"] != 0 && badRej == nil {
+					badRej = cx
+				}
+			}
+		}
+	}
+	name := "every accepted frame advances the pre-trigger ring exactly once, on every path (also when a start is refused or fails)"
+	if !wantAccepted {
+	} else if bad != nil {
+		r.Fail(rule, name, "-", fmt.Sprintf("a frame call ends with the ring advanced %d times: the frame's slot is overwritten by the next frame (lost from the pre-trigger history): %s", bad.Ghosts["moved"], describeCtx(bad)), bad.Trace)
+	} else {
+		r.Check(n > 0, rule, name, "-", fmt.Sprintf("%d exit contexts over all failure placements", n))
+	}
+	name2 := "a rejected (bad) frame never advances the pre-trigger ring"
+	if !wantRejected {
+	} else if badRej != nil {
+		r.Fail(rule, name2, "-", describeCtx(badRej), badRej.Trace)
+	} else {
+		r.Check(nbad > 0, rule, name2, "-", fmt.Sprintf("%d exit contexts on the parse-error edge", nbad))
+	}
 }
